@@ -100,6 +100,11 @@ Theorem C18_jax_roundtrip_compares_equal : forall icf tr obo genes hpoa o order 
   decode icf (encode_with order o) = Ok o'' -> compare o o'' = Ok empty_cmp.
 Proof. exact jax_roundtrip_compares_equal. Qed.
 
+(* the comparison RETURNS on any two well-formed ontologies (the resolving parent iterators it uses never
+   meet a dangling id) *)
+Theorem C18_model_compare_returns : forall ol orr, wf_cmp ol -> wf_cmp orr -> exists c, compare ol orr = Ok c.
+Proof. exact compare_returns. Qed.
+
 Print Assumptions C18_added_terms_exact.
 Print Assumptions C18_removed_terms_exact.
 Print Assumptions C18_changed_terms_exact.
@@ -119,3 +124,4 @@ Print Assumptions C18_model_compare_self_empty.
 Print Assumptions C18_model_compare_equivalent_empty.
 Print Assumptions C18_builder_roundtrip_compares_equal.
 Print Assumptions C18_jax_roundtrip_compares_equal.
+Print Assumptions C18_model_compare_returns.
